@@ -64,7 +64,7 @@ fn created_by_setup(plan: &Plan, out: &mut BTreeMap<Slot, &'static str>) {
                 out.entry(*sl).or_insert("harness");
             }
         }
-        Item::Barrier => {}
+        Item::Barrier | Item::Failed(_) => {}
     });
 }
 
@@ -124,8 +124,17 @@ fn case(rng: &mut Rng, pool: &Pool, rep: &mut Report, case_no: u64) {
     let mut history = Vec::new();
     for round in 1..=rounds {
         let before = snapshot(&world);
-        let r = catch_unwind(AssertUnwindSafe(|| disp.setup(&mut world)));
-        history.push(format!("setup#{}", round));
+        // the inherent method, or the same through the `RunNow` impl of the dispatcher (how a
+        // dispatcher nested in another object is driven)
+        let via_trait = rng.chance(1, 2);
+        let r = catch_unwind(AssertUnwindSafe(|| {
+            if via_trait {
+                shred::RunNow::setup(&mut disp, &mut world)
+            } else {
+                disp.setup(&mut world)
+            }
+        }));
+        history.push(format!("setup#{}{}", round, if via_trait { " (RunNow::setup)" } else { "" }));
         if let Err(p) = r {
             problems.push(("setup_panicked".into(), format!("setup panicked: {}", payload_str(&*p))));
             break;
@@ -140,8 +149,7 @@ fn case(rng: &mut Rng, pool: &Pool, rep: &mut Report, case_no: u64) {
                 ));
             }
         }
-        for s in Slot::all() {
-            let i = s.0 as usize;
+        for (i, s) in Slot::all().enumerate() {
             match (&before[i], &after[i]) {
                 (Some(b), Some(a)) if a != b => problems.push(("setup_clobbered".into(), format!("setup changed the pre-existing resource {}: {:x?} -> {:x?}", s.label(), b, a))),
                 (Some(_), None) => problems.push(("setup_removed".into(), format!("setup removed the resource {}", s.label()))),
@@ -167,7 +175,7 @@ fn case(rng: &mut Rng, pool: &Pool, rep: &mut Report, case_no: u64) {
         // interleave inserts / removes between setup rounds
         if round < rounds {
             for _ in 0..rng.range(0, 4) {
-                let s = Slot(rng.below(NSLOTS) as u8);
+                let s = Slot::new(rng.below(NTYPES), rng.below(NDYN));
                 if rng.chance(1, 2) {
                     remove_slot(&mut world, s);
                     history.push(format!("remove {}", s.label()));
@@ -180,8 +188,16 @@ fn case(rng: &mut Rng, pool: &Pool, rep: &mut Report, case_no: u64) {
     }
     // ---- dispose hands every system to its hook exactly once ----
     if problems.iter().all(|p| p.0 != "setup_panicked") {
-        let r = catch_unwind(AssertUnwindSafe(|| disp.dispose(&mut world)));
-        history.push("dispose".into());
+        let via_trait = rng.chance(1, 2);
+        let r = catch_unwind(AssertUnwindSafe(|| {
+            if via_trait {
+                let boxed: Box<shred::Dispatcher<'static, 'static>> = Box::new(disp);
+                shred::RunNow::dispose(boxed, &mut world)
+            } else {
+                disp.dispose(&mut world)
+            }
+        }));
+        history.push(if via_trait { "dispose (RunNow::dispose on the boxed dispatcher)".into() } else { "dispose".into() });
         match r {
             Err(p) => problems.push(("dispose_panicked".into(), format!("dispose panicked: {}", payload_str(&*p)))),
             Ok(()) => {
@@ -262,8 +278,7 @@ fn case_async(rng: &mut Rng, pool: &Pool, rep: &mut Report, case_no: u64) {
             break;
         }
     }
-    for s in Slot::all() {
-        let i = s.0 as usize;
+    for (i, s) in Slot::all().enumerate() {
         match (&before[i], &after[i]) {
             (Some(b), Some(a)) if a != b => rep.violation("setup_clobbered", &format!("AsyncDispatcher::setup changed {}", s.label()), case_no, J::Null),
             (None, None) if must.contains_key(&s) => rep.violation("setup_did_not_create:async", &format!("AsyncDispatcher::setup did not create {}", s.label()), case_no, J::Null),
